@@ -156,3 +156,67 @@ pub fn header(src: &str) -> String {
 pub fn lean_bool(b: bool) -> &'static str {
     if b { "true" } else { "false" }
 }
+
+/// every PRIVATE function of the file (inherent-impl fns and free fns without a visibility qualifier): name -> body.
+/// These are what a maintainer's "extract helper" refactoring produces; the translators look through them.
+pub fn private_fns(file: &syn::File) -> Vec<(String, &syn::Block)> {
+    let mut v = vec![];
+    for it in &file.items {
+        match it {
+            syn::Item::Fn(f) => {
+                if matches!(f.vis, syn::Visibility::Inherited) {
+                    v.push((f.sig.ident.to_string(), &*f.block));
+                }
+            }
+            syn::Item::Impl(i) if i.trait_.is_none() => {
+                for ii in &i.items {
+                    if let syn::ImplItem::Fn(f) = ii {
+                        if matches!(f.vis, syn::Visibility::Inherited) {
+                            v.push((f.sig.ident.to_string(), &f.block));
+                        }
+                    }
+                }
+            }
+            _ => {}
+        }
+    }
+    v
+}
+
+/// `start` plus the bodies of the private same-file helpers it calls (by name; up to three levels; names in `stop`
+/// — the functions that are modelled in their own right — are never looked through)
+pub fn with_private_helpers<'a>(file: &'a syn::File, start: &'a syn::Block, stop: &[&str]) -> Vec<&'a syn::Block> {
+    let helpers = private_fns(file);
+    let mut out: Vec<&'a syn::Block> = vec![start];
+    let mut seen: Vec<String> = vec![];
+    let mut frontier: Vec<&'a syn::Block> = vec![start];
+    for _ in 0..3 {
+        let mut next = vec![];
+        for b in frontier {
+            let c = calls_in_block(b);
+            let mut names: Vec<String> = c.methods.clone();
+            names.extend(c.paths.iter().map(|p| p.rsplit("::").next().unwrap_or("").to_string()));
+            for n in names {
+                if stop.contains(&n.as_str()) || seen.contains(&n) {
+                    continue;
+                }
+                if let Some((_, body)) = helpers.iter().find(|(k, _)| *k == n) {
+                    seen.push(n.clone());
+                    out.push(*body);
+                    next.push(*body);
+                }
+            }
+        }
+        frontier = next;
+    }
+    out
+}
+
+/// union of `calls_in_block` over several blocks
+pub fn calls_in_blocks(blocks: &[&syn::Block]) -> Calls {
+    let mut c = Calls::default();
+    for b in blocks {
+        c.visit_block(b);
+    }
+    c
+}
